@@ -7,7 +7,7 @@ if ! git diff --quiet; then echo "repo dirty, abort"; exit 9; fi
 git apply "$P" || { echo "patch does not apply"; exit 9; }
 cd /verif && ./check "$ID" "$TIER" > /tmp/seedtest.out 2>&1; RC=$?
 cd /repo && git checkout -- . 
-echo "rc=$RC"; grep -aE "VIOLATION|INCONCLUSIVE|property=" /tmp/seedtest.out | head -5
+echo "rc=$RC"; grep -aE "VIOLATION|INCONCLUSIVE|property=|rapid\] (failed|panic)|data race:" /tmp/seedtest.out | cut -c1-330 | head -6
 # evidence file was rewritten by this run: restore the committed one
 cd /verif && git checkout -- evidence 2>/dev/null; rm -rf /verif/replays
 exit 0
